@@ -12,7 +12,9 @@ connection that select() hands to the loop is acted upon, also when a pool threa
 load; every client outcome classified, requests counted per answering pid, pool size monitored; a request that needs seconds in
 flight when another one reaches the limit (gevent, eventlet, gthread) - also one that needs longer than `timeout`, which these
 classes serve in normal operation; persistent HTTP/1.1 clients whose requests wait in the threaded worker (more connections than
-threads) while the limit is reached: a connection declared open in a response is open for the next request; timeout = 0.
+threads) while the limit is reached: a connection declared open in a response is open for the next request; timeout = 0; two
+listeners (either order) with a request held in flight on one of them at the limit: clients that connect to the other one, or to the
+same one, while it drains are not served by the retired worker and are answered in full by its replacement.
 """
 import json
 import os
@@ -28,7 +30,10 @@ RULE = ("E2 cell = (worker loop, max_requests 0..6, jitter 0..3, requests per co
         "while the master sleeps or before the k-th source line of its pass over the worker table); live cell = (worker class, "
         "workers 1-2, max_requests 2-5, jitter 0-2, load shape sequential / 8 concurrent clients, keep-alive 0 / 2, bind tcp / unix "
         "/ both, timeout 30 / 0; or: a 4 s request in flight at the limit, timeout 30; a 10 s one, timeout 4; or: gthread, threads 1-3, "
-        "max_requests threads+1..+3, 3-5 persistent HTTP/1.1 clients whose requests wait for a thread when the limit is reached); "
+        "max_requests threads+1..+3, 3-5 persistent HTTP/1.1 clients whose requests wait for a thread when the limit is reached; or: "
+        "gevent / eventlet / gthread, binds tcp + unix in either order, max_requests 3-4, a request held in flight on the first / second "
+        "listener at the limit, the limit reached on the same / the other listener, new clients on the other and on the same listener "
+        "while it drains); "
         "E5 cell = seeded history of the scripted gthread loop, every fifth one with the limit reached while the loop polls and a "
         "late request on an earlier connection; distinct = cell tuple; every cell is non-trivial")
 
@@ -788,6 +793,227 @@ def queued_behind_limit_scenario(run, e4, sc):
         srv.cleanup()
 
 
+def listeners_held(pid, srv):
+    """Which of the server's listening sockets (bind = both: "tcp", "unix") process `pid` has open right now: the listening
+    sockets are found by address in /proc/net (state LISTEN), the process's descriptors in /proc/<pid>/fd.  None = the process
+    cannot be read (it has gone)."""
+    inodes = {}
+    try:
+        with open("/proc/net/tcp") as f:
+            for ln in f.read().splitlines()[1:]:
+                p = ln.split()
+                if len(p) > 9 and p[3] == "0A" and int(p[1].rsplit(":", 1)[1], 16) == srv.port and p[1].startswith("0100007F"):
+                    inodes[p[9]] = "tcp"
+        with open("/proc/net/unix") as f:
+            for ln in f.read().splitlines()[1:]:
+                p = ln.split()
+                if len(p) > 7 and p[7] == srv.sockpath and int(p[3], 16) & 0x10000:
+                    inodes[p[6]] = "unix"
+    except (OSError, ValueError):
+        return None
+    held = set()
+    try:
+        fds = os.listdir("/proc/%d/fd" % pid)
+    except OSError:
+        return None
+    for fd in fds:
+        try:
+            t = os.readlink("/proc/%d/fd/%s" % (pid, fd))
+        except OSError:
+            continue
+        if t.startswith("socket:[") and t[8:-1] in inodes:
+            held.add(inodes[t[8:-1]])
+    return held
+
+
+def pid_in(rec):
+    try:
+        return int(e4_body(rec).split(b"pid=")[1].split()[0])
+    except (IndexError, ValueError):
+        return None
+
+
+def e4_body(rec):
+    buf = rec["data"]
+    e = buf.find(b"\r\n\r\n")
+    return buf[e + 4:] if e >= 0 else b""
+
+
+def two_listener_drain_scenario(run, e4, sc):
+    """A server with two listeners (a TCP port and a unix socket, in either order) and one concurrent worker; a request that stays
+    in the application - held by a gate, for as long as the harness wants - came in through one listener when another request
+    reaches max_requests.  While that request drains, new clients connect - to the OTHER listener, and to the same one.  `No worker
+    keeps accepting work after the limit plus what was in flight`: none of them may be answered by the retired worker; all of them
+    are answered in full by somebody (they wait in the listen queue, which the master keeps open, for the replacement); the request
+    in flight is answered in full by the worker that took it, which then exits.
+    Ordering is taken from evidence: the new clients connect only after the worker has logged that it reached the limit AND
+    either it holds none of the listening sockets any more (/proc/<pid>/fd: it cannot accept, whatever the machine's load) or 8 s
+    have passed since that log line without measurable scheduling lag (the gevent / eventlet / gthread loops look at `alive` once
+    a second - the known finding async-worker-keeps-accepting-until-heartbeat-tick is not what is judged here).  Who answered is
+    read from the response body (pid), never from timing."""
+    v = []
+    info = {}
+    wc, m = sc["class"], sc["max_requests"]
+    hold_on, order = sc["hold_on"], sc["order"]
+    settings = {"max_requests": m, "max_requests_jitter": 0, "keepalive": 2, "graceful_timeout": 40, "timeout": 30}
+    if wc == "gthread":
+        settings["threads"] = 4
+    srv = e4.Server("c18", worker_class=wc, workers=1, settings=settings, bind="both")
+    if order == "unix-first":
+        srv.bind = list(reversed(srv.bind))
+        srv.write_conf()
+    addr_of = {"tcp": srv.addr, "unix": srv.addr2}
+    other = "unix" if hold_on == "tcp" else "tcp"
+    hold_is_first = (hold_on == "tcp") == (order == "tcp-first")
+    info["long_request_on"] = "%s (%s listener of the bind list)" % (hold_on, "first" if hold_is_first else "second")
+    probe = e4.LagProbe()
+    probe.start()
+    released = [False]
+
+    def release():
+        if not released[0]:
+            released[0] = True
+            srv.release("h")
+    try:
+        srv.start()
+        w0 = srv.wait_workers(1, 25)
+        if not w0 or not srv.wait_listening(5):
+            return v, "server did not boot: %s" % srv.stderr()[-300:], info
+        try:
+            e4.connect(srv.addr2, 2).close()
+        except OSError as e:
+            return v, "the unix listener does not accept connections: %r" % e, info
+        old = w0[0]
+        if listeners_held(old, srv) != {"tcp", "unix"}:
+            return v, "the worker's listening sockets cannot be seen in /proc (%s)" % listeners_held(old, srv), info
+        # requests 1 .. m-2: both listeners in turn, answered by the first worker
+        for i in range(m - 2):
+            r = e4.request(addr_of[("tcp", "unix")[i % 2]], "/pid", timeout=10)
+            if r["outcome"] != "ok" or pid_in(r) != old:
+                return v, "warm-up request %d -> %s from %s" % (i + 1, r["outcome"], pid_in(r)), info
+        # request m-1 stays in the application
+        res = {}
+        holder = threading.Thread(target=lambda: res.update(h=e4.request(addr_of[hold_on], "/gate/h", timeout=100)), daemon=True)
+        holder.start()
+        if srv.wait_phase("entered h", 15) != old:
+            return v, "the long request did not reach the application of the first worker", info
+        # request m reaches the limit
+        limit_on = hold_on if sc["limit_on"] == "same" else other
+        rl = e4.request(addr_of[limit_on], "/pid", timeout=10)
+        info["limit_request"] = rl["outcome"]
+        if rl["outcome"] != "ok":
+            v.append(("client-request-lost-at-recycle/" + wc, "two listeners (%s), %s: the request that reaches max_requests=%d (on the %s "
+                      "listener) while another one is in flight (on the %s listener) -> %s" % (
+                          order, wc, m, limit_on, hold_on, rl["outcome"])))
+            return v, None, info
+        if pid_in(rl) != old:
+            return v, "request number %d was not answered by the first worker" % m, info
+        t0 = time.monotonic()
+        t_limit = None
+        while time.monotonic() - t0 < 15:
+            if "Autorestarting worker" in srv.error_log():
+                t_limit = time.monotonic()
+                break
+            time.sleep(0.02)
+        if t_limit is None:
+            return v, "the worker answered request number max_requests=%d and did not log that it restarts" % m, info
+        # the new clients come when the retired worker cannot accept any more (it holds no listening socket), or 8 s after the limit
+        held = None
+        while True:
+            held = listeners_held(old, srv)
+            if not held or time.monotonic() - t_limit >= 8.0:
+                break
+            time.sleep(0.05)
+        info["listeners_open_in_retired_worker_when_new_clients_connect"] = sorted(held) if held is not None else None
+        info["seconds_after_limit"] = round(time.monotonic() - t_limit, 2)
+        if held is None and not e4.alive(old):
+            # it has left with a request in flight
+            release()
+            holder.join(20)
+            h = res.get("h")
+            v.append(("in-flight-request-lost-at-recycle/two-listeners/" + wc, "two listeners (%s), %s, max_requests=%d, graceful_timeout=40: "
+                      "the worker exited %.1f s after the limit while a request that had entered the application (on the %s listener) "
+                      "was still in flight -> %s" % (order, wc, m, time.monotonic() - t_limit, hold_on, h and h["outcome"])))
+            return v, None, info
+        if held and probe.max_lag(since=t_limit) > 0.5:
+            return v, "scheduling lag of %.1f s while waiting for the retired worker's next look at its `alive` flag" % (
+                probe.max_lag(since=t_limit)), info
+        # new clients: on the other listener, and on the one the long request came through
+        probes = [(other, "p%d" % i) for i in range(sc["probes_other"])] + [(hold_on, "s%d" % i) for i in range(sc["probes_same"])]
+
+        def client(where, tag):
+            res[tag] = e4.request(addr_of[where], "/pid", timeout=90)
+        pts = [threading.Thread(target=client, args=p, daemon=True) for p in probes]
+        for t in pts:
+            t.start()
+            time.sleep(0.05)
+        # the request in flight stays there a little longer: a worker that still accepts answers the new clients meanwhile
+        t1 = time.monotonic()
+        while time.monotonic() - t1 < sc.get("window", 1.5) and not all(tag in res for _, tag in probes):
+            time.sleep(0.02)
+        info["answered_while_draining"] = sorted(tag for _, tag in probes if tag in res)
+        still_there = e4.alive(old)
+        release()
+        holder.join(60)
+        for t in pts:
+            t.join(100)
+        h = res.get("h")
+        info["in_flight_request"] = h and h["outcome"]
+        if not h or h["outcome"] != "ok" or pid_in(h) != old or b"done=h" not in e4_body(h):
+            v.append(("in-flight-request-lost-at-recycle/two-listeners/" + wc, "two listeners (%s), %s, max_requests=%d, graceful_timeout=40: "
+                      "a request in flight on the %s listener (application entered, pid %d) when request number %d (on the %s listener) "
+                      "reached the limit was let go %.1f s later (worker alive then: %s) -> %s, %d bytes (%r)" % (
+                          order, wc, m, hold_on, old, m, limit_on, t1 - t_limit + sc.get("window", 1.5), still_there,
+                          h and h["outcome"], len(h["data"]) if h else 0, h and h["data"][:40])))
+            return v, None, info
+        recs = [(where, tag, res.get(tag)) for where, tag in probes]
+        if any(r is None for _, _, r in recs):
+            return v, "a client thread did not finish", info
+        info["new_clients"] = ["%s:%s" % (where, r["outcome"]) for where, _, r in recs]
+        by_old = [(where, r) for where, _, r in recs if r["outcome"] == "ok" and pid_in(r) == old]
+        lost = [(where, r) for where, _, r in recs if r["outcome"] != "ok"]
+        for where, r in by_old[:1]:
+            which = "other-listener" if where == other else "same-listener"
+            n_old = m + len(by_old)
+            v.append(("retired-worker-serves-new-connections-while-draining/%s/%s" % (which, wc),
+                      "two listeners (%s), %s, max_requests=%d, no jitter: requests 1..%d were answered by the first worker, number %d (on "
+                      "the %s listener, the %s of the bind list) was held in the application, number %d (on the %s listener) reached the "
+                      "limit and the worker logged 'Autorestarting worker'. %.1f s after that line (listening sockets then open in the "
+                      "retired worker: %s) %d new clients connected to the %s listener and %d to the %s one while the held request was "
+                      "kept in flight for another %.1f s: %d of them were accepted and answered by the retired worker (%s) - it "
+                      "answered %d requests, max_requests + in flight allows %d" % (
+                          order, wc, m, m - 2, m - 1, hold_on, "first" if hold_is_first else "second", m, limit_on,
+                          info["seconds_after_limit"], info["listeners_open_in_retired_worker_when_new_clients_connect"],
+                          sc["probes_other"], other, sc["probes_same"], hold_on, sc.get("window", 1.5), len(by_old),
+                          ", ".join(sorted(set("%s listener" % w for w, _ in by_old))), n_old, m)))
+        if lost:
+            v.append(("client-request-lost-at-recycle/two-listeners/" + wc, "two listeners (%s), %s, max_requests=%d: clients that connected "
+                      "%.1f s after the limit was reached, while a request in flight on the %s listener drained: %s" % (
+                          order, wc, m, info["seconds_after_limit"], hold_on, info["new_clients"])))
+        if v:
+            return v, None, info
+        # the retired worker exits, and what answered the new clients is its replacement
+        t2 = time.monotonic()
+        while time.monotonic() - t2 < 20 and e4.alive(old):
+            srv.reap()
+            time.sleep(0.05)
+        if e4.alive(old):
+            v.append(("recycled-worker-not-replaced", "two listeners (%s), %s: 20 s after its last request in flight was answered the "
+                      "retired worker %d is still running (pool %s)" % (order, wc, old, srv.worker_pids())))
+            return v, None, info
+        run.count("live_two_listener_drain_checks")
+        run.count("live_two_listener_drain_checks/%s/long-request-on-%s-listener" % (wc, "first" if hold_is_first else "second"))
+        run.count("live_two_listener_drain_new_clients_answered_by_replacement/other-listener", sc["probes_other"])
+        run.count("live_two_listener_drain_new_clients_answered_by_replacement/same-listener", sc["probes_same"])
+        if not held:
+            run.count("live_two_listener_drain_ordered_by_closed_listening_sockets")
+        return v, None, info
+    finally:
+        probe.stop_flag = True
+        release()
+        srv.cleanup()
+
+
 def live_scenarios(tier, seed):
     rng = rng_for(seed, "c18-live")
     out = []
@@ -835,6 +1061,19 @@ def live_scenarios(tier, seed):
                     "jitter": 0, "queued": rng3.randint(2, 4), "keepalive": rng3.choice([2, 5, 30]), "bind": rng3.choice(["tcp", "unix"]),
                     "requests": 8})
         out[-1]["concurrency"] = T + 1 + out[-1]["queued"]
+    # two listeners, a request held in flight on one of them (the first / the second of the bind list) at the limit, new clients on
+    # the other one and on the same one while it drains (every concurrent class)
+    rng4 = rng_for(seed, "c18-live-two-listener-drain")
+    for rep in range(1 if tier == "quick" else 3):
+        for wc in ("gevent", "eventlet", "gthread"):
+            for position in ("first", "second"):
+                order = rng4.choice(["tcp-first", "unix-first"])
+                hold_on = ("tcp" if order == "tcp-first" else "unix") if position == "first" else ("unix" if order == "tcp-first" else "tcp")
+                m = rng4.choice([3, 4])
+                out.append({"class": wc, "kind": "two-listener-drain", "workers": 1, "max_requests": m, "jitter": 0, "order": order,
+                            "hold_on": hold_on, "limit_on": rng4.choice(["same", "other"]), "probes_other": m - 2, "probes_same": 1,
+                            "requests": 2 * m - 1, "concurrency": m})
+                out[-1]["bind"] = "both:%s:long-request-on-%s:limit-on-%s" % (order, hold_on, out[-1]["limit_on"])
     # timeout = 0 ("workers are never timed out"): recycled workers are replaced all the same
     classes = ["sync", "gthread", "gevent", "eventlet"]
     for wc in ([classes[seed % 4]] if tier == "quick" else classes):
@@ -842,7 +1081,7 @@ def live_scenarios(tier, seed):
                     "requests": 48 if wc in ("gevent", "eventlet") else 24, "timeout": 0, "request_timeout": 5})
     for i, sc in enumerate(out):
         sc["idx"] = i
-        if sc.get("kind") in ("keepalive-reuse", "in-flight-long", "queued-behind-limit"):
+        if sc.get("kind") in ("keepalive-reuse", "in-flight-long", "queued-behind-limit", "two-listener-drain"):
             continue
         if sc["class"] in ("gevent", "eventlet") and sc["max_requests"]:
             # these workers look at their own `alive` flag once per second: make the load span several ticks
@@ -911,6 +1150,8 @@ def shard(sh):
                 v, reason, info = inflight_scenario(run, e4, sc)
             elif sc.get("kind") == "queued-behind-limit":
                 v, reason, info = queued_behind_limit_scenario(run, e4, sc)
+            elif sc.get("kind") == "two-listener-drain":
+                v, reason, info = two_listener_drain_scenario(run, e4, sc)
             else:
                 v, reason, info = live_scenario(run, e4, sc)
             if reason is None or v:
@@ -977,7 +1218,16 @@ def main(tier, seed):
                 "live_in_flight_request_beyond_worker_timeout_answered/eventlet",
                 "live_in_flight_request_beyond_worker_timeout_answered/gthread",
                 # persistent clients whose requests wait in the threaded worker while the limit is reached
-                "live_queued_behind_limit_checks/gthread", "live_queued_requests_answered_by_retiring_worker")
+                "live_queued_behind_limit_checks/gthread", "live_queued_requests_answered_by_retiring_worker",
+                # two listeners: new clients on the other / the same listener while a request in flight at the limit drains
+                "live_two_listener_drain_checks/gevent/long-request-on-first-listener",
+                "live_two_listener_drain_checks/gevent/long-request-on-second-listener",
+                "live_two_listener_drain_checks/eventlet/long-request-on-first-listener",
+                "live_two_listener_drain_checks/eventlet/long-request-on-second-listener",
+                "live_two_listener_drain_checks/gthread/long-request-on-first-listener",
+                "live_two_listener_drain_checks/gthread/long-request-on-second-listener",
+                "live_two_listener_drain_new_clients_answered_by_replacement/other-listener",
+                "live_two_listener_drain_new_clients_answered_by_replacement/same-listener")
     shards = plan(tier, seed)
     run.assumptions = [
         "concurrent workers may finish the connections already accepted when the limit is hit: bounded by the number of concurrent client connections the harness opens",
@@ -1013,7 +1263,8 @@ def replay(path):
     else:
         from vlib import e4_live as e4
         fn = {"keepalive-reuse": keepalive_reuse_scenario, "in-flight-long": inflight_scenario,
-              "queued-behind-limit": queued_behind_limit_scenario}.get(c["scenario"].get("kind"), live_scenario)
+              "queued-behind-limit": queued_behind_limit_scenario,
+              "two-listener-drain": two_listener_drain_scenario}.get(c["scenario"].get("kind"), live_scenario)
         v, reason, info = fn(run, e4, c["scenario"])
         print("info:", info, "inconclusive:", reason)
     for mech, s in v:
